@@ -19,6 +19,7 @@ From Coq.Strings Require Import Byte.
 From SP Require Import Bytes Params Msgpack Crypto Errors Packets Chunker Rand Verify Encrypt Decrypt Signcrypt
      SignAuthProofs ScAuthProofs ScAuthLocated.
 From SP Require Import Nonce Packets Signcrypt GoLang GoLang2 GoAst GoAstProofs GoAstProofs2 GoAstProofs3 GoAstProofs4b.
+From SP Require Import GoAstRecv.
 From Coq Require String.
 Import String.StringSyntax.
 Import ListNotations.
